@@ -154,3 +154,20 @@ UNITS.append(Native(
     bound="the meta-model of native/c11.py: 11 (class, property) pairs with length bounds and patterns from the class "
           "itself, an ancestor, constrained primitives, a descendant primitive tightening both bounds and a chain of "
           "primitives declared child-first; expected values worked out by hand from the invariants", args={}))
+
+# ---- the gluing loop: a constraint found behind an optional guard is only taken if the guard is on the very same
+# property ("if the property is set, then ...") -- a guard on another property cannot be represented in a schema
+UNITS.append(Contract(
+    f"{LEN}:len_constraints_from_invariants", ["C15", "C11", "C13"], specs=S,
+    loops={1: Loop(body_ensures=[
+        ("guard-and-constraint-on-the-same-property",
+         "implies(invariant.specified_for is cls and conditional_on_prop is not None "
+         "and len_constraint_on_prop is not None, "
+         "len_constraint_on_prop.prop_name == conditional_on_prop.prop_name)")])},
+    opaque=["aas_core_codegen.infer_for_schema.match:try_conditional_on_prop",
+            f"{LEN}:_match_len_constraint_on_property", f"{LEN}:_reduce_constraints"],
+    use_as_callee=False))
+# only the iteration of the first loop is under contract (the second loop needs "every key of the map is a property of
+# the class", a quantified invariant over the keys of a dict)
+UNITS[-1].loops[1].skip_exit = True
+UNITS[-1].partial = True  # no path of this unit reaches the end of the function, by construction
